@@ -8,6 +8,9 @@ ENGINE_NOTE = ("Trusted: Coq kernel, extraction (ExtrOcamlBasic), OCaml driver, 
                "the cfg(walrus_verif_small) geometry hook. Modelled not verified: payload bytes abstract (pid,len), checksum matches iff written together, "
                "sequential single-instance use, fault-free I/O. No axioms (Print Assumptions: closed under the global context).")
 
+CR = ("Trusted: Coq kernel, extraction (ExtrOcamlBasic), OCaml driver, python drivers, harness/wh, the cfg(walrus_verif) I/O event seam (src/wal/verif.rs and its call sites; assumed observation-only when nothing is armed). "
+      "Crash model: process crash, completed syscalls persist; crash points are the I/O events of the client thread (storage writes, flushes, file create/set_len/sync, directory sync, index temp write/fsync/rename, io_uring SQE pushes with the queued prefix completed, CQEs); torn single writes and power loss are outside (C10). No axioms.")
+
 CHECKS = {
  "C01": dict(text="Theorem c01_outside_known (Coq; every Cfg with cfg_ok, both modes, both backends, EVERY finite op sequence of appends, batches, read_next, batch reads with any budget, peeks, offset reads, counts): the model's trace is accepted by the queue acceptor c01_ok (each consuming read returns exactly the next unreturned entries; empty only when nothing is left). Known class outside the theorem: entries larger than MAX_ALLOC / names that do not fit the header (c01_refuted_oversize_append). The hand-written model/Engine.v is tied to the code on every run by running the real crate (small geometry hook) and the extracted model on the same generated op sequences and diffing every result; the extracted acceptor c01_ok is run over the implementation's own traces.",
              ref="DESIGN.md section 8 (C01)", note=ENGINE_NOTE + " Restarts are C06's subject."),
@@ -21,6 +24,12 @@ CHECKS = {
              ref="DESIGN.md section 8 (C02)", note=ENGINE_NOTE + " Partial for clause (a): see C02_full in coq/props/C02.v."),
  "C06": dict(text="Proved (Coq): c06_recovery_complete_partial — for EVERY well-formed file image (any number of files, blocks of any extent incl. multi-unit, never-written blocks anywhere) the startup scan of model/Engine.v rebuilds for every topic exactly the entries its blocks hold, in file order. The whole-history statement C06_full (restarts at arbitrary points are invisible) is stated in coq/props/C06.v and not yet proved; it is decided per run by (1) the differential run of model vs real crate on histories with REOPEN (same process) and RESTART (fresh process) events, (2) the extracted queue acceptors over the implementation's traces (c01_ok+c15_ok with restart events left in for StrictlyAtOnce; c06alo_ok = no loss/reordering, re-delivery of a suffix allowed, for AtLeastOnce), (3) a metamorphic run on the implementation (history with vs without its restarts: same delivered stream per topic, same final counts). Clock behaviour between runs is not varied (file order = creation order is assumed by the model).",
              ref="DESIGN.md section 8 (C06)", note=ENGINE_NOTE + " Partial: see C06_full. Three genuine defects found by this check were repaired (fix: 6016445, a9c79b9, 0e1f235)."),
+ "C07": dict(text="Proved (Coq): c07_recovery_of_any_crash_image_partial — for every well-formed file image (which every crash image between two whole-entry writes is) the startup scan rebuilds every topic's entries completely and in order; c07_acceptor_means — the extracted acceptor c07_ok accepts exactly 'recovered = acknowledged ++ a prefix of the in-flight operation'. The whole-workload statement is decided per run by crash-point enumeration on the real crate: the workload process _exit()s right before its k-th I/O event (quick: sampled k, thorough: every k), a fresh process reopens and is drained, every topic judged by c07_ok; reopening must not error or panic.",
+             ref="DESIGN.md section 8 (C07)", note=CR + " Partial: the tie between the engine model's disk image and dwf along every history (DInv) is not yet proved."),
+ "C08": dict(text="Proved (Coq): c08_refuted — in the faithful model a crash after the first entry's write of a three-entry batch recovers exactly that one entry (the property is FALSE of the code: known finding C08-batch-not-crash-atomic, design level, reported as KNOWN-FINDING); c08_outside_known — single-entry batches are all-or-nothing; c08_acceptor_means — the extracted acceptor accepts exactly 'nothing or everything of the in-flight batch'. Per run: every crash point inside generated batches (io_uring path: queued prefix completes; mmap path: sequential writes) on the real crate, judged by c08_ok; rejections are classified by the mechanism-shaped class computed from the case (crash inside a batch of >= 2 entries), anything else is a violation.",
+             ref="DESIGN.md section 8 (C08)", note=CR),
+ "C09": dict(text="Proved (Coq): c09_strict_acceptor_means — accepted means delivered-before-crash ++ delivered-after-recovery is exactly the appended stream (every entry once, in order); c09_alo_acceptor_means — accepted means the recovered consumer resumes at a position that skips nothing and, when a bound is given, re-delivers at most persist_every entries; model witnesses for tail/sealed positions. The whole-history statement is decided per run by crash-point enumeration on the real crate (StrictlyAtOnce and AtLeastOnce{1,2,3,5,8}; crash points include between the index temp-file write, its fsync and the rename, and inside the read in flight), judged by these acceptors.",
+             ref="DESIGN.md section 8 (C09)", note=CR + " Partial: no whole-history theorem about persisted positions yet (needs the hydration invariant, see DESIGN)."),
  "C14": dict(text="Theorem c14_component_safe (Coq, all keys, no bound): the path component computed from any key is non-empty, not '.'/'..', free of '/' and NUL. The hand-written model is tied to the code on every run by a differential run of the real sanitize_namespace and of real instances built through every constructor, and the extracted acceptor safe_component is applied to every component the implementation produced.",
              ref="DESIGN.md section 8 (C14)", note="Trusted: Coq kernel, extraction (ExtrOcamlBasic), OCaml driver, python generators, the cfg(walrus_verif) accessor, Linux PathBuf::push semantics (modelled). No axioms."),
  "C25": dict(text="Theorems c25_roundtrip and c25_injective (Coq, every topic string and every u64 segment): parse_wal_key (wal_key topic n) = Some (topic, n). The model of format!/rsplitn/strip_prefix/u64::from_str is tied to the unmodified types.rs (compiled via #[path]) by a differential run including adversarial topics and raw decoder inputs.",
